@@ -1,4 +1,5 @@
-(* Generic correspondence driver.  Links against an extracted [Model] exposing
+(* Generic correspondence driver.  Links against an extracted [Model] and a generated one-line [Entry]
+   (let run_case = Model.<entry point>) exposing
      run_case : z list list -> z list list
    where z/positive are the extracted Coq inductives (Zpos/Zneg/Z0, XI/XO/XH).
    Trace file format:
@@ -51,7 +52,7 @@ let () =
     if !ops <> [] then begin
       incr cases;
       let opl = List.rev !ops and obl = List.rev !obs in
-      let pred = run_case (List.map (List.map z_of_string) opl) in
+      let pred = Entry.run_case (List.map (List.map z_of_string) opl) in
       let rec cmp k ps os =
         match ps, os with
         | p :: ps', o :: os' ->
